@@ -282,7 +282,9 @@ def gen_tb_one(rng, ttl=60, scale=None):
         elif r < 0.07:
             # checkpoint synced from the HA peer: the id is the PEER's choice (in use here or not)
             ops.append("H/%d/%s%s" % (rng.choice(sids), tup(h), rng.choice(["", "", "/" + NAMES[0]])))
-        elif r < 0.12:
+        elif r < 0.10:
+            ops.append(rng.choice(["F", "F", "A"]) + "/-%d" % rng.randint(1, 3))
+        elif r < 0.14:
             ops.append("I/" + tup(h))
         elif r < 0.45:
             k = rng.random()
@@ -414,6 +416,30 @@ def gen_tb_hasync(rng, tier):
     return cases
 
 
+def gen_tb_teardown(rng, tier):
+    """every teardown path frees exactly the id of the session it ends: PADT, dead peer, AAA reject (A), dataplane add
+    failure (F), also when the failure arrives late (session already gone, id re-used by another subscriber)"""
+    head = "tb 60 G=0-199 occ=- next=1 ; "
+    cases = []
+    for own, other in [(A, B), (B, A), (A, A2), (("020000aa0001", 100, 0), A3)]:
+        RA, RB = "R/%s/%s" % (tup(own), ck_valid(own)), "R/%s/%s" % (tup(other), ck_valid(other))
+        name = "S/%s/1/name:626f62" % tup(own)
+        for end in ("T/%s/1" % tup(own), "D/1", "A/-1", "F/-1"):
+            # own session (id 1) authenticates, ends through <end>; the freed id is given to the other host (next=1 again
+            # is the allocator's business: any admissible id); late failure / late reject for the dead object change nothing
+            cases.append(head + " ".join([RA, name, end, "S/%s/1/cr" % tup(own), RB, "F/-2", "A/-2", "S/%s/1/cr" % tup(other),
+                                          "S/%s/2/cr" % tup(other), "T/%s/1" % tup(own), "F/-1", "F/-1"]))
+        # reject of the OLDER of two sessions of one tuple (displaced from c.sessions): the answer finds nobody
+        cases.append(head + " ".join([RA, name, RA, "A/-2", "S/%s/1/cr" % tup(own), "S/%s/2/name:616c" % tup(own), "A/-1",
+                                      "S/%s/2/cr" % tup(own), "S/%s/1/cr" % tup(own), "F/-2", "F/-2"]))
+        # nothing outstanding / unknown object
+        cases.append(head + " ".join([RA, "A/-1", "A/-3", "F/-3", "S/%s/1/cr" % tup(own)]))
+        # HA-restored and start-up restored sessions are torn down by a dataplane failure like any other
+        cases.append(head + " ".join(["X/7/%s/626f62" % tup(other), "H/9/%s" % tup(own), "F/-1", "F/-2", "S/%s/7/cr" % tup(other),
+                                      "S/%s/9/cr" % tup(own), RA]))
+    return cases
+
+
 def gen_tb_race(rng, tier):
     """PADRs forced to overlap between allocateSessionID and addToIndexes (gate in the harness's AccessResolver)"""
     head = "tb 60 G=0-199 "
@@ -476,7 +502,7 @@ def gen_cases(rng, tier, budget):
     n = (budget or 700) if tier == "quick" else (budget or 12000)
     for _ in range(n):
         cases.append(gen_tb_one(rng, ttl=rng.choice([60, 60, 60, 5])))
-    cases += gen_directed() + gen_tb_collide(rng, tier) + gen_tb_hasync(rng, tier) + gen_tb_race(rng, tier) + gen_tb_attr(rng, tier)
+    cases += gen_directed() + gen_tb_collide(rng, tier) + gen_tb_hasync(rng, tier) + gen_tb_teardown(rng, tier) + gen_tb_race(rng, tier) + gen_tb_attr(rng, tier)
     # quick: one history with 65535 sessions (last id taken -> id space full -> freed -> two PADRs race for it)
     cases += FULLSCALE[1:]
     if tier == "thorough":
